@@ -345,7 +345,7 @@ def find_nearest(array, values, sorted=False, index=dict()):
 		Array of indices.
 	"""
 	array = np.asarray(array)
-	values = np.array(values, ndmin=1, copy=False)
+	values = np.atleast_1d(np.asarray(values))
 	ind = np.zeros(values.shape)
 	for v in range(values.size):
 		ind[v] = index.get(values[v])
